@@ -149,6 +149,31 @@ func checkC11(c *Ctx) {
 					"old record looked up, cancelled and replaced inside one critical section of "+guard,
 					sprintf("%s stores a new stream record into %s but the previous record is not cancelled inside the same critical section of %s: two streams can stay open / be registered for one session", fname(fn), table, guard))
 
+				// the registering function must not tear the entry down through a function that deletes by key alone
+				// (session termination does that, rightly): by then the key may name a newer stream
+				ir.EachInstr(fn, func(_ *ssa.BasicBlock, _ int, in ssa.Instruction) {
+					call, ok := in.(ssa.CallInstruction)
+					if !ok {
+						return
+					}
+					for _, cal := range ir.Callees(c.G, call) {
+						gi := byFn[cal]
+						if gi == nil || cal == fn || len(gi.deletes) == 0 || len(gi.inserts) > 0 {
+							continue
+						}
+						byKey := false
+						for _, del := range gi.deletes {
+							if p, _, _ := deleteGuardedByParam(c, cal, del, table, guard); p == nil {
+								byKey = true
+							}
+						}
+						if byKey && flow.Reaches(ins.Instr, in) {
+							nSelf++
+							c.R.Violate("R-remove-self-only", "self-removal of "+fname(fn)+" through "+fname(cal), c.Pos(in.Pos()),
+								sprintf("%s registers a stream record in %s and later removes it by calling %s, which deletes (and cancels) whatever the key maps to: when a newer stream has replaced this one, its exit evicts and cancels the newer stream", fname(fn), table, fname(cal)))
+						}
+					}
+				})
 				// self tear-down deletes
 				for _, del := range fi.deletes {
 					nSelf++
